@@ -133,7 +133,7 @@ func parseCSVOutputCells(s string) ([][]*string, bool) {
 	return recs, !inQ
 }
 
-func coqOptStr(p *string) string {
+func c19CoqOptStr(p *string) string {
 	if p == nil {
 		return "None"
 	}
@@ -162,7 +162,7 @@ func coqFixedCase(c *fixedCase, r RunResult) (term string, shown map[string]inte
 			for _, rec := range recs[1:] {
 				cells := make([]string, len(rec))
 				for i, x := range rec {
-					cells[i] = coqOptStr(x)
+					cells[i] = c19CoqOptStr(x)
 				}
 				rows = append(rows, coqList(cells))
 			}
